@@ -28,6 +28,8 @@ var errLookedAtExceptions = map[string]string{
 	"E2 msgpipeline.srcBlockForAddr:Split1": "the empty reverse-path is not an address: the error is deliberately ignored for it (comment at the site) and the lookup goes on with empty parts",
 	"E2 dns.CheckCNAMEAD:exchange2":         "the AAAA fallback is best effort by design: when it fails the canonical name stays empty, which the only caller (discoverTLSA) turns into the error 'no address associated with the host' – the delivery is deferred, nothing is treated as secure",
 	"E2 msgpipeline.getRcptModifiers:RewriteSender1": "the call is a probe: per-recipient modifiers may not change the sender, and the result is only used to warn when they would; the sender in use is never taken from it, so its failure changes nothing",
+	"E2 modify.rewrite:Split1":              "the address was produced by address.ForLookup two steps earlier, which splits it successfully; the branch cannot be taken and the site says so (\"ignore it silently\"): the value is returned unchanged",
+	"E2 table.Lookup:Split1":                "table.email_localpart maps an address to its local part: a key that is not an address has no mapping (or maps to itself with allow_non_email) – the split error IS the not-found answer",
 	"E1 pass_table.AuthPlain:Lookup1":       "the `ok` result is tested before the error: a failed table lookup is answered as 'unknown credentials'; authentication is refused on both paths, so C14 is not affected (the reply class for a broken table is outside the listed properties)",
 }
 
@@ -586,6 +588,41 @@ func commaOkSites(p *Prog, fi *FuncInfo) map[string]string {
 					return false
 				}
 			}
+			// where ok is false the value is the zero value: a test of its length or nil-ness has a known outcome
+			zeroWorld := f.World(func(atom ast.Expr) (bool, bool) {
+				be, isBE := ast.Unparen(atom).(*ast.BinaryExpr)
+				if !isBE {
+					return false, false
+				}
+				if call, isCall := ast.Unparen(be.X).(*ast.CallExpr); isCall && len(call.Args) == 1 {
+					if fid, isF := call.Fun.(*ast.Ident); isF && fid.Name == "len" && objOf(info, call.Args[0]) == v {
+						if tv, has := info.Types[be.Y]; has && tv.Value != nil && tv.Value.String() == "0" {
+							switch be.Op {
+							case token.EQL, token.LEQ:
+								return true, true
+							case token.NEQ, token.GTR:
+								return false, true
+							}
+						}
+					}
+				}
+				if objOf(info, be.X) == v && isNilIdent(info, be.Y) {
+					switch be.Op {
+					case token.EQL:
+						return true, true
+					case token.NEQ:
+						return false, true
+					}
+				}
+				return false, false
+			})
+			prevImplied := impliedFalse
+			impliedFalse = func(b *cfgBlock, i int) bool {
+				if prevImplied != nil && prevImplied(b, i) {
+					return true
+				}
+				return zeroWorld(b, i)
+			}
 			msg := ""
 			if path, found := f.ReachRefined2(pt, okv, true, true, reads, redef2, impliedFalse); found {
 				msg = "the value of a failed " + map[string]string{"assert": "type assertion", "map": "map lookup", "recv": "receive from a closed channel"}[kind] + " (" + v.Name() + ", the zero value) is used: " + f.Describe(path)
@@ -631,6 +668,16 @@ func readsUnguarded(info *types.Info, n ast.Node, v, okv types.Object) bool {
 					}
 				}
 				return false
+			}
+			// the length of the zero value is a fact, not a use of it (`v, ok := m[k]; if len(v) == 0 { … }`)
+			if call, isCall := y.(*ast.CallExpr); isCall && len(call.Args) == 1 {
+				if fid, isF := call.Fun.(*ast.Ident); isF && (fid.Name == "len" || fid.Name == "cap") {
+					if _, isB := info.Uses[fid].(*types.Builtin); isB {
+						if aid, isA := ast.Unparen(call.Args[0]).(*ast.Ident); isA && info.Uses[aid] == v {
+							return false
+						}
+					}
+				}
 			}
 			if id, isID := y.(*ast.Ident); isID && info.Uses[id] == v {
 				found = true
